@@ -782,7 +782,8 @@ def check(prop, tier):
                 path = os.path.join(vdir, f"{idx}.json")
                 json.dump(rep, open(path, "w"), indent=1)
                 confirmed = (ur or {}).get("confirmed") or (ob.get("native_replay") or {}).get("confirmed")
-                has_witness = bool(ob.get("witness_bytes")) or bool((ur or {}).get("input"))
+                # a harness without symbolic inputs has an (empty) playback test that is still a replayable witness
+                has_witness = bool(ob.get("witness_bytes")) or bool(ob.get("playback")) or bool((ur or {}).get("input"))
                 if has_witness and confirmed:
                     violations.append((ob, path, ""))
                 elif has_witness and (ob.get("native_replay") or {}).get("ran") and not confirmed and not (ur or {}).get("confirmed"):
